@@ -375,3 +375,7 @@ def program_strategy(draw, ops=("map", "zip", "scatter", "gather", "cond", "loop
 
 
 schedule_strategy = st.lists(st.integers(0, 4), max_size=12)
+
+# job durations in loop turns: scheduling one job costs a few hundred loop turns (database calls, directory
+# creation), so durations up to ~1500 turns make the jobs of a scattered step overlap and finish in any order
+durations_strategy = st.lists(st.one_of(st.integers(0, 40), st.integers(100, 1500)), min_size=1, max_size=6)
